@@ -85,6 +85,7 @@ C06LT = [("Mc.Props.C06Lift", "Mc.C06.C06_distinct_targets"), ("Mc.Props.C06Lift
 C08T = [("Mc.Props.C07", "Mc.C07." + t) for t in ["C07_gate", "C07_child_happy", "C07_wait", "C07_progress", "C07_complete", "C07_complete_forall", "C07_claims_filtered"]]
 
 C01T = [("Mc.Props.C01", "Mc.C01." + t) for t in ["silent_ret", "C01_updateGroup_quiet", "C01_deleteGroup_quiet", "C01_manage_quiet", "C01_equal_is_fix", "C01_ssa_quiet"]] + \
+       [("Mc.Props.C01Closed", "Mc.C01." + t) for t in ["delete_live", "create_free", "deleteGroup_run", "createGroup_run"]] + \
        [("Mc.Props.C06", "Mc.C06.C06_equal_no_write"), ("Mc.Props.C05", "Mc.C05.C05_idempotent"), ("Mc.Props.C05", "Mc.C05.C05_self_merge"), ("Mc.Props.C05", "Mc.C05.C05_contains")]
 
 # closed-world theorems: the Lean API-server model (Mc/Api.lean, cross-checked against the simulator on every recorded request) with arbitrary other clients
